@@ -86,6 +86,24 @@ def compare(chk, rule, section, cur, what, floor, row_filter=None, fn_filter=Non
                 missing.append(r)
         if missing or extra:
             diffs[fn] = [missing, extra]
+    # re-coded conditions: a row whose predicate set differs but whose reaching condition is logically equivalent to the
+    # reviewed one (if/else-if chain vs match, guard clause vs nesting, flattened if-lets) is the same decision
+    oforms = (load_oracle("_formulas") or {})
+    for fn, (missing, extra) in diffs.items():
+        for r in list(missing):
+            eff, gs = json.loads(r)
+            fo = oforms.get(fn, {}).get("\x1f".join(gs))
+            if fo is None:
+                continue
+            for x in list(extra):
+                e2, g2 = json.loads(x)
+                if e2 != eff:
+                    continue
+                fc = guards.FORMULAS.get((fn, tuple(g2)))
+                if fc is not None and guards.equivalent(fo, fc) is True:
+                    missing.remove(r)
+                    extra.remove(x)
+                    break
     # relocation: rows that left a reviewed function and reappear, with the same effect, in a function the reviewed table does
     # not know (a helper extracted from it) are the same decision made in another place - not a difference
     newfns = [fn for fn in diffs if fn not in ora]
